@@ -52,6 +52,8 @@ RawRowObsT(ty, base, n) ==
   IN [ty |-> ty, base |-> base, n |-> n,
       rt |-> rt,
       rt2 |-> Force([k \in 1..n |-> IntoRawAnyT(t, FromRawAnyT(t, rt[k]))], n),
+      \* colour -> raw -> colour is the identity on the transcribed colour value
+      beq |-> Force([k \in 1..n |-> IF FromRawAnyT(t, rt[k]) = col[k] THEN 1 ELSE 0], n),
       c1 |-> Force([k \in 1..n |-> chs[k][1]], n),
       c2 |-> IF IsRgb(t) THEN Force([k \in 1..n |-> chs[k][2]], n) ELSE <<>>,
       c3 |-> IF IsRgb(t) THEN Force([k \in 1..n |-> chs[k][3]], n) ELSE <<>>]
